@@ -10,6 +10,10 @@ for pid, p in props.items():
     prior = []
     for d in sorted(glob.glob(f'/verif/seeded/{pid}-*')):
         prior.append(json.load(open(d + '/meta.json'))['title'])
+    for d in sorted(glob.glob(f'/tmp/seed-out/{pid}-*')):  # a round that is evaluated but not archived yet
+        k = d.rsplit('-', 1)[1]
+        if k not in (k1, k2) and not os.path.exists(f'/verif/seeded/{pid}-{k}') and os.path.exists(d + '/meta.json'):
+            prior.append(json.load(open(d + '/meta.json'))['title'])
     wt = f'/tmp/seedwork/{pid}/repo'
     os.makedirs(f'/tmp/seedwork/{pid}', exist_ok=True)
     subprocess.run(f'rm -rf {wt} && git clone -q /repo {wt}', shell=True, check=True)
@@ -89,7 +93,15 @@ Two DIFFERENT changes (call them {pid}-{k1} and {pid}-{k2}) to the library's non
    field-level encodings written into by the caller, byte-identical consecutive events and replies with in-place edits,
    replies of every class inside request histories, values made through every constructor, time profiles that start on
    daylight-saving change days, partial door maps, fractional numbers, weekday ranges, over-long datagrams made of whole
-   frames, empty datagrams, descriptor exhaustion:
+   frames, empty datagrams, descriptor exhaustion, values of other locations / zones handled right before the value under
+   test (also after enough other values to flush small memos), decoding into variables that hold values of other locations,
+   different days without a local midnight handled by several goroutines at once, concurrent different calls on one client,
+   argument slices overwritten in place between calls, debug output that stalls at any chosen line for longer than the
+   timeout, TCP peers that keep the connection open after a request that expects no reply, deadlocks between concurrent
+   calls of different transport paths (reported as such), raw ICMP observation, IPv6 senders, multicast broadcast addresses,
+   real process signals, TZ changed at run time, address text with escapes and environment references, case mappings that
+   change byte lengths, decorated text (fractional seconds) whose decoded value must survive its own JSON form, out-of-range
+   times in ordered segments, special-purpose IPv4 ranges, instants centuries apart, layouts of up to 62 fields:
    look for what such testing still would NOT reach.
 
 Changes of earlier rounds - do NOT repeat these or close variants of them; find a different mechanism, a different
